@@ -200,11 +200,19 @@ static void threads_execute(const Plan* p) {
   /* in some plans the main thread is inside a critical section while the workers start */
   int main_holds = (int)plan_env(p, "main_holds", 0);
   if (main_holds) { int m = (main_holds - 1) % NMTX; if (main_holds <= NMTX) lock(g_mtx[m]); else if (!trylock(g_mtx[m])) viol("C13", "C13:trylock-model-mismatch", "trylock of a free mutex failed"); g_expected[m] += 1; }
+  /* Thread objects as the documentation creates them - new(Thread, f), i.e. registered with the creating thread's collector -
+   * or raw; with managed threads the main thread keeps allocating (and so collecting) while the workers run */
+  int managed = (int)plan_env(p, "managed_threads", 0);
   var th_obj[MAXTH], th_arg[MAXTH];
   for (int th = 1; th <= g_nth; th++) {
-    th_obj[th] = new_raw(Thread, $(Function, thread_entry));
-    th_arg[th] = new_raw(Int, $I(th));
+    th_obj[th] = managed ? new(Thread, $(Function, thread_entry)) : new_raw(Thread, $(Function, thread_entry));
+    th_arg[th] = managed ? new(Int, $I(th)) : new_raw(Int, $I(th));
     call(th_obj[th], th_arg[th]);
+  }
+  if (managed) {
+    int rounds = 2 + (managed % 7);
+    for (int k = 0; k < rounds; k++) { for (int j = 0; j < 40; j++) new(Int, $I(j)); sim_pause(); }
+    stat_add("thr.main_collects_while_workers_run", 1);
   }
   if (main_holds) { int m = (main_holds - 1) % NMTX; for (int k = 0; k < 3; k++) sim_pause(); section(m, 4); unlock(g_mtx[m]); stat_add("thr.main_in_section_at_start", 1); }
   /* join in a seeded order; immediately after join the thread's function has finished and its writes are visible */
@@ -238,7 +246,7 @@ static void threads_execute(const Plan* p) {
     if (g_counter[m] != g_expected[m]) viol("C13", "C13:lost-update", "counter guarded by mutex %d is %ld after %ld increments", m, g_counter[m], g_expected[m]);
     del_raw(g_mtx[m]);
   }
-  for (int th = 1; th <= g_nth; th++) { del_raw(th_obj[th]); del_raw(th_arg[th]); }
+  for (int th = 1; th <= g_nth; th++) { if (managed) { del(th_obj[th]); del(th_arg[th]); } else { del_raw(th_obj[th]); del_raw(th_arg[th]); } }
   (void)ref_new0;
   stat_add("thr.threads", g_nth);
   long coll_threads = 0; for (int t = 1; t < MAXTH; t++) if (g_tnode_new[t] > 20) coll_threads++;
@@ -250,6 +258,7 @@ static void threads_generate(Plan* p, Rng* r) {
   int nth = (int)plan_env(p, "threads", -1);
   if (nth < 0) { nth = rng_chance(r, 3, 4) ? 2 + (int)rng_below(r, 4) : 6 + (int)rng_below(r, 11); plan_env_set(p, "threads", nth); }
   plan_env_set(p, "join.order", (int)rng_below(r, 4));
+  if (plan_env(p, "managed_threads", -1) < 0) plan_env_set(p, "managed_threads", rng_chance(r, 1, 2) ? 1 + (int)rng_below(r, 20) : 0);
   plan_env_set(p, "main_holds", rng_chance(r, 1, 3) ? 1 + (int)rng_below(r, 2 * NMTX) : 0);
   plan_env_set(p, "alloc.place", (int)rng_below(r, 3));
   if (rng_chance(r, 1, 2)) { plan_env_set(p, "sched.mode", 2); plan_env_set(p, "sched.chaos_den", 2 + (int)rng_below(r, 12)); }
